@@ -218,6 +218,18 @@ class DataModels:
     def dict_get(self, I, d, k, ln, default, strict):
         """lookup in a concrete python dict with a possibly symbolic key"""
         if isinstance(k, Code) or is_sym(k):
+            if not strict and not I.pure and len(d) > 24 and is_sym(k) and z3.is_int(k) and \
+                    all(isinstance(v, str) for v in d.values()):
+                # a large name table looked up with .get(): no fork per entry, the looked-up name is an
+                # if-then-else over the entries (a string term); absent keys give the default
+                out = default if isinstance(default, str) or (is_sym(default) and z3.is_string(default)) else None
+                if out is None:
+                    out = I.ctx.const('name!default', StrS)        # a formatted fallback name: some string
+                term = to_str(out)
+                for key, val in d.items():
+                    if isinstance(key, int):
+                        term = z3.If(k == key, z3.StringVal(val), term)
+                return term
             for key, val in d.items():
                 if I.ctx.branch(I.equal(k, key)) if not I.pure else False:
                     return val
